@@ -563,21 +563,24 @@ def sim_integ(ctx):
         import math
         a_, e2_, ge_ = (float(repo.const('earth.' + k_)) for k_ in ('A', 'E2', 'GE'))
         acc = None
-        for st_ in f.node.body:
-            if isinstance(st_, ast.Assign) and isinstance(st_.targets[0], ast.Name) and \
-                    st_.targets[0].id == 'ACCURACY':
-                try:
-                    acc = float(repo.fold(st_.value, f.module))
-                except (ValueError, TypeError):
-                    acc = None
-        # the accuracy the loop demands: the constant its convergence test compares with
-        if acc is None:
-            for n_ in ast.walk(f.node):
-                if isinstance(n_, ast.If) and len(n_.body) == 1 and isinstance(n_.body[0], ast.Break):
-                    for c_ in ast.walk(n_.test):
-                        if isinstance(c_, ast.Compare) and isinstance(c_.comparators[0],
-                                                                      ast.Constant):
-                            acc = float(c_.comparators[0].value)
+        # the accuracy the loop demands: the constant its convergence test (`if ...: break`)
+        # compares with - a literal, or a local bound once to something that folds
+        for n_ in ast.walk(f.node):
+            if isinstance(n_, ast.If) and len(n_.body) == 1 and isinstance(n_.body[0], ast.Break):
+                for c_ in ast.walk(n_.test):
+                    if not (isinstance(c_, ast.Compare) and len(c_.ops) == 1 and
+                            isinstance(c_.ops[0], (ast.Lt, ast.LtE))):
+                        continue
+                    b_ = c_.comparators[0]
+                    if isinstance(b_, ast.Name):
+                        ds_ = [x for x in ast.walk(f.node) if isinstance(x, ast.Assign) and
+                               len(x.targets) == 1 and isinstance(x.targets[0], ast.Name) and
+                               x.targets[0].id == b_.id]
+                        b_ = ds_[0].value if len(ds_) == 1 else b_
+                    try:
+                        acc = float(repo.fold(b_, f.module))
+                    except (ValueError, TypeError):
+                        pass
         ctx.need(acc is not None and acc > 0, 'generate_imu: accuracy of the latitude iteration '
                  'not found')
         V_, T_ = 300.0, 2 * math.pi * math.sqrt(a_ / ge_)
